@@ -225,11 +225,12 @@ func H_pair_two() {
 // and through the property), method parameter, nullable method parameter.
 func H_member_forms() {
 	a := symx.Choose("A", 4)
-	form := symx.Choose("form", 6)
+	form := symx.Choose("form", 7)
 	kind := symx.Choose("kind", 5) // 4 = null
 	w := symx.Int("w")
 	exprs := append(append([]string{}, valueExprs...), "null")
 	src := "class U {}\nclass Box<T> { public T $v; public ?T $n = null;\n  function __construct(public T $p = null) { }\n  function set(T $x) { return 1; }\n  function opt(?T $x) { return 1; } }\n"
+	src += "class CBox<T> { public $seen = 0; function __construct(T $x) { $this->seen = 1; } }\n"
 	src += "$b = new Box<" + typeArgs[a] + ">();\n"
 	stmt := []string{
 		"$b->v = VALUE;",
@@ -238,6 +239,7 @@ func H_member_forms() {
 		"$b->p = VALUE;",
 		"$b->set(VALUE);",
 		"$b->opt(VALUE);",
+		"$c = new CBox<" + typeArgs[a] + ">(VALUE);",
 	}[form]
 	for i := 0; i+5 <= len(stmt); i++ {
 		if stmt[i:i+5] == "VALUE" {
@@ -266,7 +268,7 @@ func H_member_forms() {
 		known, id = true, "C19-nullable-type-parameter"
 	case form == 2 || form == 3:
 		known, id = true, "C19-promoted-constructor-property"
-	case (form == 4 || form == 2) && kind == 4:
+	case (form == 4 || form == 2 || form == 6) && kind == 4:
 		// null into a non-nullable typed parameter: the recorded C07 finding, not a C19 matter
 		symx.Reach("end")
 		return
